@@ -528,7 +528,7 @@ def call (f : String) (args : List V) : Out :=
     if rest.length > 1 then .err args else
     let x := rest.getD 0 .nil
     let r := arrayFill a x
-    .ok (.seq 1 r) (setArg0 args (.seq 1 r))
+    withMirror (ArrC.fill a x) (some r) args (.ok (.seq 1 r) (setArg0 args (.seq 1 r)))
   | "array/push", (.seq 1 a) :: xs => let r := a ++ xs; .ok (.seq 1 r) (setArg0 args (.seq 1 r))
   | "array/pop", [.seq 1 a] =>
     (match a.getLast? with
